@@ -172,6 +172,8 @@ func c52Run(sc c52Scenario, id int, tr *vlib.Trace) {
 			return 1
 		case "half":
 			return pl/2 + 1
+		case "short": // 1..8 bytes less than a full record's plaintext
+			return pl - 1 - sc.Salt%8
 		case "full":
 			return pl + oh
 		}
@@ -227,7 +229,9 @@ func c52Run(sc c52Scenario, id int, tr *vlib.Trace) {
 			}()
 			n, err = rc.Read(b)
 		}()
-		ev["n"], ev["err"], ev["eof"], ev["runs"] = n, err != nil, err == io.EOF, c52Runs(b[:n])
+		// n is logged raw (a Read may claim more than len(b): the monitor judges that); the bytes
+		// recorded are what the caller's buffer really holds
+		ev["n"], ev["err"], ev["eof"], ev["runs"] = n, err != nil, err == io.EOF, c52Runs(b[:max(0, min(n, len(b)))])
 		tr.Emit(ev)
 		return err == nil
 	}
@@ -339,7 +343,15 @@ func TestVerifC52Replay(t *testing.T) {
 		if err := json.Unmarshal(ln, &sc); err != nil {
 			t.Fatal(err)
 		}
-		c52Run(sc, i, tr)
+		func() {
+			// any panic of the code under test outside the guarded Read / Write calls is an event too
+			defer func() {
+				if x := recover(); x != nil {
+					tr.Emit(map[string]any{"ev": "panic", "what": fmt.Sprint(x)})
+				}
+			}()
+			c52Run(sc, i, tr)
+		}()
 	}
 	fmt.Printf("VERIF_SUMMARY {\"behaviours\":%d,\"events\":%d}\n", len(lines), tr.N)
 }
